@@ -15,6 +15,20 @@ func mIsStdout(w io.Writer) bool {
 	return ok && f == os.Stdout
 }
 
+// A process's ORIGINAL stdout file, kept by somebody after os.Stdout was pointed elsewhere (go-plugin's Serve redirects
+// os.Stdout to a pipe after printing the handshake line): a write to it still lands on the real stdout. The composed
+// world registers each process's original file and the function that records such a write.
+var mOrigStdoutOf = map[*os.File]bool{}
+var mRealStdoutHook func(s string)
+
+func mWriteOrig(f *os.File, s string) bool {
+	if f != os.Stdout && mOrigStdoutOf[f] && mRealStdoutHook != nil {
+		mRealStdoutHook(s)
+		return true
+	}
+	return false
+}
+
 //verif:model fmt.Println
 func mPrintln(a ...any) (int, error) { return mPrintf("%s", fmt.Sprintln(a...)) }
 
@@ -47,6 +61,9 @@ func mFprint(w io.Writer, a ...any) (int, error) {
 
 //verif:model (*os.File).WriteString
 func mFileWriteString(f *os.File, s string) (int, error) {
+	if mWriteOrig(f, s) {
+		return len(s), nil
+	}
 	if f == os.Stdout {
 		return mPrintf("%s", s)
 	}
@@ -55,6 +72,9 @@ func mFileWriteString(f *os.File, s string) (int, error) {
 
 //verif:model (*os.File).Write
 func mFileWrite(f *os.File, b []byte) (int, error) {
+	if mWriteOrig(f, string(b)) {
+		return len(b), nil
+	}
 	if f == os.Stdout {
 		return mPrintf("%s", string(b))
 	}
